@@ -73,7 +73,8 @@ PropsOf(ev, g) ==
 
 RejRec(ev, k) ==
     LET g == ev.g[k] IN
-    [line |-> l, i |-> ev.i, k |-> k, what |-> "group", props |-> PropsOf(ev, g),
+    [line |-> l, i |-> ev.i, k |-> k, what |-> "group", cls |-> ev.src \o ">" \o g.d \o "/" \o g.res,
+     props |-> PropsOf(ev, g),
      kf |-> KF_Conv(Resolve(ev.src), Resolve(g.d), ev.src, g.d, g.ms,
                     g.s = 1, ev["in"], g.res, g.out, plat)]
 
